@@ -162,9 +162,13 @@ func runC11(c *Ctx) {
 			}
 		})
 	}
+	// the interpreter core: executeOne and the functions it is split into (ext_e.go)
+	core := c.execCoreOf(fn)
 	var gate *ssa.BasicBlock
-	if len(numOpsStores) == 1 && numOpsStores[0].Parent() == fn {
+	gf := fn // the member that holds the counter and the budget test
+	if len(numOpsStores) == 1 && core.in[numOpsStores[0].Parent()] {
 		st := numOpsStores[0]
+		gf = st.Parent()
 		ok := false
 		if bo, isB := st.Val.(*ssa.BinOp); isB && bo.Op == token.ADD {
 			if k, isC := constInt(bo.Y); isC && k == 1 && isFieldLoad(bo.X, ia.T, "NumOps") {
@@ -178,17 +182,17 @@ func runC11(c *Ctx) {
 		for _, s := range numOpsStores {
 			where = append(where, c.fname(s.Parent())+" at "+c.pos(s.Pos()))
 		}
-		c.fail("L1-COUNTER", fnName, "single writer of NumOps", fn.Pos(), fmt.Sprintf("Interpreter.NumOps must be written exactly once, in executeOne; found %d stores: %s", len(numOpsStores), strings.Join(where, ", ")))
+		c.fail("L1-COUNTER", fnName, "single writer of NumOps", fn.Pos(), fmt.Sprintf("Interpreter.NumOps must be written exactly once, in executeOne (or a function executeOne is split into); found %d stores: %s", len(numOpsStores), strings.Join(where, ", ")))
 	}
-	// non-interference: MaxOps read only in executeOne
+	// non-interference: MaxOps read only in the function that holds the budget test
 	var foreign []string
 	for _, r := range maxOpsReads {
-		if r.Parent() != fn {
+		if r.Parent() != gf {
 			foreign = append(foreign, c.fname(r.Parent())+" at "+c.pos(r.Pos()))
 		}
 	}
 	c.check(len(foreign) == 0 && len(maxOpsReads) > 0, "L1-NONINTERFERENCE", fnName, "MaxOps read only by the budget gate", fn.Pos(),
-		fmt.Sprintf("%d reads, all in executeOne", len(maxOpsReads)), "Interpreter.MaxOps is read outside the budget gate ("+strings.Join(foreign, ", ")+"): the budget can then influence results other than by stopping the run")
+		fmt.Sprintf("%d reads, all in the function of the budget test", len(maxOpsReads)), "Interpreter.MaxOps is read outside the budget gate ("+strings.Join(foreign, ", ")+"): the budget can then influence results other than by stopping the run")
 	for _, s := range maxOpsStores {
 		k, isC := constInt(s.Val)
 		c.check(isC && k > 0, "L1-BUDGETSET", c.fname(s.Parent()), "MaxOps = positive constant", s.Pos(), fmt.Sprintf("MaxOps = %d", k), "a library reader sets MaxOps to a value that is not a positive constant, so it may run without a budget")
@@ -228,36 +232,40 @@ func runC11(c *Ctx) {
 		c.check(bad == "", "L1-GATE", fnName, "budget test ≡ MaxOps>0 ∧ NumOps>MaxOps → ErrExecutionLimitExceeded", st.Pos(),
 			fmt.Sprintf("decision table over %d (MaxOps,NumOps) cells", cells), "the budget test is not `MaxOps > 0 && NumOps > MaxOps → return ErrExecutionLimitExceeded`: "+bad)
 
-		// placement: gate dominates every dispatch (dynamic builtin call, load); every
-		// cycle of the CFG that avoids the gate block contains a self-call
+		// placement: every dispatch (dynamic builtin call, load) in a member of the core is executed
+		// only after the gate: dominated by it in the gate's own function, elsewhere in a function that is
+		// only entered after the gate; every cycle of a member's CFG that avoids the gate block contains a
+		// call of a member
+		isGate := func(b *ssa.BasicBlock) bool { return b == gate }
 		var disp []ssa.Instruction
-		eachInstr(fn, func(ins ssa.Instruction) {
-			call, ok := ins.(ssa.CallInstruction)
-			if !ok {
-				return
-			}
-			com := call.Common()
-			if com.IsInvoke() {
-				return
-			}
-			if com.StaticCallee() == nil {
-				if _, isB := com.Value.(*ssa.Builtin); !isB {
-					if _, isDefer := ins.(*ssa.Defer); !isDefer {
+		for _, h := range core.funcs {
+			eachInstr(h, func(ins ssa.Instruction) {
+				call, ok := ins.(ssa.CallInstruction)
+				if !ok {
+					return
+				}
+				com := call.Common()
+				if com.IsInvoke() {
+					return
+				}
+				if _, isDefer := ins.(*ssa.Defer); isDefer {
+					return
+				}
+				if com.StaticCallee() == nil {
+					if _, isB := com.Value.(*ssa.Builtin); !isB {
 						disp = append(disp, ins)
 					}
-				}
-			} else if com.StaticCallee() == ia.load {
-				disp = append(disp, ins)
-			} else if g := com.StaticCallee(); g != fn && c.containsDispatch(g, ia, map[*ssa.Function]bool{}) {
-				// the dispatch was moved into a helper: the call of the helper is the dispatch site
-				if _, isDefer := ins.(*ssa.Defer); !isDefer {
+				} else if com.StaticCallee() == ia.load {
+					disp = append(disp, ins)
+				} else if g := com.StaticCallee(); !core.in[g] && c.containsDispatch(g, ia, map[*ssa.Function]bool{}, core.in) {
+					// the dispatch was moved into a helper: the call of the helper is the dispatch site
 					disp = append(disp, ins)
 				}
-			}
-		})
+			})
+		}
 		nd := 0
 		for _, d := range disp {
-			if !dominatesInstr(st, d) {
+			if !core.siteAfter(d, st, isGate) {
 				nd++
 				c.fail("L1-PLACEMENT", fnName, "budget gate dominates dispatch", d.Pos(), "an operator can be dispatched ("+c.pos(d.Pos())+") on a path that does not pass the operation counter and budget test")
 			}
@@ -265,14 +273,15 @@ func runC11(c *Ctx) {
 		if nd == 0 {
 			c.check(len(disp) >= 2, "L1-PLACEMENT", fnName, "budget gate dominates dispatch", st.Pos(), fmt.Sprintf("%d dispatch sites dominated", len(disp)), "no dispatch site found in executeOne")
 		}
-		cyc := cycleAvoiding(fn, func(b *ssa.BasicBlock) bool {
-			if b == gate {
-				return true
+		var cyc []int
+		cycIn := fn
+		for _, h := range core.funcs {
+			if cy := cycleAvoiding(h, func(b *ssa.BasicBlock) bool { return b == gate || core.callsMember(b) }); cy != nil && cyc == nil {
+				cyc, cycIn = cy, h
 			}
-			return len(blockCalls(b, fn)) > 0
-		})
+		}
 		c.check(cyc == nil, "L1-CYCLE", fnName, "every dispatch cycle passes the budget gate", st.Pos(), "no CFG cycle avoids both the gate and a nested executeOne call",
-			"executeOne contains a loop (blocks "+pathString(cyc)+") that neither passes the operation counter nor calls executeOne: operations can be executed without being counted")
+			c.fname(cycIn)+" contains a loop (blocks "+pathString(cyc)+") that neither passes the operation counter nor calls executeOne: operations can be executed without being counted")
 	}
 
 	// ---------------- L2: the sentinel never re-enters the interpreter
@@ -332,12 +341,15 @@ func runC11(c *Ctx) {
 
 	// ---------------- L3: execution depth gate
 	var depthStores []*ssa.Store
-	eachInstr(fn, func(ins ssa.Instruction) {
-		if st, ok := ins.(*ssa.Store); ok && isFieldAddr(st.Addr, ia.T, c.fld("intp.execDepth")) {
-			depthStores = append(depthStores, st)
-		}
-	})
+	for _, h := range core.funcs {
+		eachInstr(h, func(ins ssa.Instruction) {
+			if st, ok := ins.(*ssa.Store); ok && isFieldAddr(st.Addr, ia.T, c.fld("intp.execDepth")) {
+				depthStores = append(depthStores, st)
+			}
+		})
+	}
 	var depthGate *ssa.BasicBlock
+	var depthStore *ssa.Store
 	for _, st := range depthStores {
 		bo, ok := st.Val.(*ssa.BinOp)
 		if !ok || bo.Op != token.ADD {
@@ -359,7 +371,7 @@ func runC11(c *Ctx) {
 			}
 		}
 		if ok && k < 1000 && hasDefer {
-			depthGate = st.Block()
+			depthGate, depthStore = st.Block(), st
 			c.ok("L3-GATE", fnName, "depth test-and-increment with deferred decrement", st.Pos(), fmt.Sprintf("execStackDepth <= %d before increment; decrement deferred", k), "")
 		} else {
 			c.fail("L3-GATE", fnName, "depth test-and-increment with deferred decrement", st.Pos(), fmt.Sprintf("the increment of execStackDepth is not guarded by a constant limit (found=%v, limit=%d) or its decrement is not deferred (%v)", ok, k, hasDefer))
@@ -368,33 +380,54 @@ func runC11(c *Ctx) {
 	if depthGate == nil {
 		c.fail("L3-GATE", fnName, "depth gate present", fn.Pos(), "no guarded increment of Interpreter.execStackDepth found in executeOne")
 	} else {
+		// One invocation of executeOne may span several Go functions (the members of the core).  Go
+		// recursion is bounded by the depth gate if every call cycle among them passes through
+		// executeOne, and every nested call of executeOne either passes the constant true (the callee
+		// runs the gate itself) or is reached only after the gate was passed since the enclosing
+		// invocation began.  The second clause is a path-sensitive search per member, started with what is
+		// known about the member's parameters when it is entered with the gate not yet passed.
+		if bad := core.cycleAvoidingEntry(); bad != nil {
+			c.fail("L3-SELFCALL", fnName, "every call cycle of the interpreter core passes executeOne", bad.Pos(), c.fname(bad)+" lies on a call cycle that does not pass executeOne: its Go recursion is not bounded by the execution-depth gate")
+		}
+		isDepthGate := func(b *ssa.BasicBlock) bool { return b == depthGate }
+		memo := map[*ssa.Function][]entryFacts{}
 		nself := 0
-		for _, call := range staticCalls(fn, fn) {
-			if _, isDefer := call.(*ssa.Defer); isDefer {
-				continue
-			}
-			flag := call.Common().Args[2]
-			if b, ok := constBool(flag); ok && b {
-				c.ok("L3-SELFCALL", fnName, "nested call passes execProc=true (gated in callee)", call.Pos(), "constant true", "")
+		for _, h := range core.funcs {
+			for _, call := range staticCalls(h, fn) {
+				if _, isDefer := call.(*ssa.Defer); isDefer {
+					continue
+				}
+				hName := c.fname(h)
+				flag := call.Common().Args[2]
+				if b, ok := constBool(flag); ok && b {
+					c.ok("L3-SELFCALL", hName, "nested call passes execProc=true (gated in callee)", call.Pos(), "constant true", "")
+					nself++
+					continue
+				}
 				nself++
-				continue
-			}
-			nself++
-			target := call.Block()
-			q := &pathQuery{fn: fn, isTarget: func(b *ssa.BasicBlock) bool { return b == target }, avoid: func(b *ssa.BasicBlock) bool { return b == depthGate }}
-			if q.search() {
-				c.fail("L3-SELFCALL", fnName, "nested call with execProc≠true only from a frame that passed the depth gate", call.Pos(),
-					"executeOne can reach the nested call at "+c.pos(call.Pos())+" without having passed the execution-depth test (block path "+pathString(q.witness)+"): a procedure entered this way recurses in Go without limit (e.g. `/f { f 1 } def f`)")
-			} else {
-				c.ok("L3-SELFCALL", fnName, "nested call with execProc≠true only from a frame that passed the depth gate", call.Pos(), "path-sensitive search: no gate-avoiding path", "")
+				target := call.Block()
+				witness := ""
+				for _, e := range core.unmarkedEntries(h, isDepthGate, depthStore, memo, map[*ssa.Function]bool{}) {
+					q := &pathQuery{fn: h, initBools: e.bools, initTyps: e.typs, isTarget: func(b *ssa.BasicBlock) bool { return b == target }, avoid: isDepthGate}
+					if q.search() {
+						witness = pathString(q.witness)
+						break
+					}
+				}
+				if witness != "" {
+					c.fail("L3-SELFCALL", hName, "nested call with execProc≠true only from a frame that passed the depth gate", call.Pos(),
+						"executeOne can reach the nested call at "+c.pos(call.Pos())+" without having passed the execution-depth test (block path "+witness+" in "+hName+"): a procedure entered this way recurses in Go without limit (e.g. `/f { f 1 } def f`)")
+				} else {
+					c.ok("L3-SELFCALL", hName, "nested call with execProc≠true only from a frame that passed the depth gate", call.Pos(), "path-sensitive search: no gate-avoiding path", "")
+				}
 			}
 		}
 		c.check(nself >= 2, "L3-SELFCALL", fnName, "self-calls found", fn.Pos(), fmt.Sprint(nself), "expected nested executeOne calls in executeOne")
 	}
 	// external callers
 	for _, f := range c.modFuncs {
-		if f == fn {
-			continue
+		if core.in[f] {
+			continue // nested calls of the core: L3-SELFCALL
 		}
 		for _, call := range staticCalls(f, fn) {
 			flag := call.Common().Args[2]
@@ -413,22 +446,34 @@ func runC11(c *Ctx) {
 	c.eexecNesting(ia)
 
 	// ---------------- L4: operand stack gate dominates dispatch
+	stackTest := c.stackTests(core, ia)
 	if gate != nil {
 		k, ok := upperBoundConst(domConds(gate), func(v ssa.Value) bool { return lenOfField(v, ia.T, "Stack") })
+		if !ok && len(stackTest) > 0 && core.enteredOnlyAfter(gf, func(b *ssa.BasicBlock) bool { _, is := stackTest[b]; return is }, map[*ssa.Function]bool{}) {
+			// the test was passed before the function of the dispatch was entered
+			ok = true
+			for _, kk := range stackTest {
+				if kk > k {
+					k = kk
+				}
+			}
+		}
 		c.check(ok && k <= 100000, "L4-OPSTACK", fnName, "operand stack limit dominates dispatch", gate.Instrs[0].Pos(), fmt.Sprintf("len(Stack) <= %d on entry to the dispatch", k),
 			"the dispatch is not dominated by a constant bound on len(intp.Stack)")
 		// and the failing edge reports stackoverflow
 		found := false
-		for _, b := range fn.Blocks {
-			if c.blockReturnsErr(b) == "stackoverflow" {
-				found = true
+		for _, h := range core.funcs {
+			for _, b := range h.Blocks {
+				if c.blockReturnsErr(b) == "stackoverflow" {
+					found = true
+				}
 			}
 		}
 		c.check(found, "L4-OPSTACK", fnName, "stackoverflow error", fn.Pos(), "returns stackoverflow", "no exit of executeOne reports stackoverflow")
 	}
 
 	// ---------------- L1/L4: no successful step bypasses the gates
-	c.uncountedSuccess(ia, gate)
+	c.uncountedSuccess(ia, gate, core, stackTest)
 
 	// ---------------- L5: growth of the interpreter's own stacks is gated
 	c.stackGrowth(ia)
@@ -447,11 +492,11 @@ func runC11(c *Ctx) {
 // the entry to a `return nil` that does neither is an execution step that is not counted (a loop of
 // such steps never exhausts the budget) or not limited (a loop that pushes grows the stack without
 // bound).  Decided by a path-sensitive search on the CFG of executeOne.
-func (c *Ctx) uncountedSuccess(ia *interpAnchors, gate *ssa.BasicBlock) {
+func (c *Ctx) uncountedSuccess(ia *interpAnchors, gate *ssa.BasicBlock, core *execCore, stackTest map[*ssa.BasicBlock]int64) {
 	fn := ia.executeOne
 	fnName := c.fname(fn)
-	ei := errIndex(fn.Signature)
 	returnsNil := func(b *ssa.BasicBlock) bool {
+		ei := errIndex(b.Parent().Signature)
 		if len(b.Instrs) == 0 || ei < 0 {
 			return false
 		}
@@ -476,54 +521,82 @@ func (c *Ctx) uncountedSuccess(ia *interpAnchors, gate *ssa.BasicBlock) {
 		k, ok := lowerBoundConst(domConds(b), func(v ssa.Value) bool { return lenOfField(v, ia.T, procStart) })
 		return ok && k >= 1
 	}
+	// Every member of the core is examined: a successful return (the constant nil; a member that
+	// returns the result of another member hands on what that one decided) must have passed the mark
+	// inside the member, unless the member is only ever entered after the mark was passed.
 	if gate != nil {
+		isGate := func(b *ssa.BasicBlock) bool { return b == gate }
 		avoid := func(b *ssa.BasicBlock) bool { return b == gate || collects(b) }
-		q := &pathQuery{fn: fn, isTarget: func(b *ssa.BasicBlock) bool { return returnsNil(b) && !avoid(b) }, avoid: avoid}
-		if q.search() {
-			last := fn.Blocks[q.witness[len(q.witness)-1]]
-			c.fail("L1-COUNTED", fnName, "every executed object is counted", firstPos(last),
-				"executeOne can return successfully at "+c.pos(firstPos(last))+" (block path "+pathString(q.witness)+") without having passed the operation counter and budget test and without having collected the object into an open procedure body: such a step is executed but not counted, a loop of them never reaches the budget")
-		} else {
-			c.ok("L1-COUNTED", fnName, "every executed object is counted", fn.Pos(), "path-sensitive search: every successful return passed the counter or only collected the object into an open procedure body", "")
-		}
-	}
-	// operand-stack limit test: an If on len(Stack) against a constant one of whose edges reports stackoverflow
-	stackTest := map[*ssa.BasicBlock]bool{}
-	for _, b := range fn.Blocks {
-		ifi, ok := b.Instrs[len(b.Instrs)-1].(*ssa.If)
-		if !ok {
-			continue
-		}
-		m, ok := asCmp(cond{ifi.Cond, true, b})
-		if !ok || !lenOfField(m.x, ia.T, "Stack") && !lenOfField(m.y, ia.T, "Stack") {
-			continue
-		}
-		for _, s := range b.Succs {
-			if c.blockReturnsErr(s) == "stackoverflow" {
-				stackTest[b] = true
+		bad := false
+		for _, h := range core.funcs {
+			if core.enteredOnlyAfter(h, isGate, map[*ssa.Function]bool{}) {
+				continue
 			}
+			q := &pathQuery{fn: h, isTarget: func(b *ssa.BasicBlock) bool { return returnsNil(b) && !avoid(b) }, avoid: avoid}
+			if q.search() {
+				bad = true
+				last := h.Blocks[q.witness[len(q.witness)-1]]
+				c.fail("L1-COUNTED", fnName, "every executed object is counted", firstPos(last),
+					"executeOne can return successfully at "+c.pos(firstPos(last))+" (block path "+pathString(q.witness)+" in "+c.fname(h)+") without having passed the operation counter and budget test and without having collected the object into an open procedure body: such a step is executed but not counted, a loop of them never reaches the budget")
+			}
+		}
+		if !bad {
+			c.ok("L1-COUNTED", fnName, "every executed object is counted", fn.Pos(), "path-sensitive search: every successful return passed the counter or only collected the object into an open procedure body", "")
 		}
 	}
 	if len(stackTest) == 0 {
 		c.fail("L4-OPSTACK", fnName, "every successful step passes the operand stack limit", fn.Pos(), "no test of len(Stack) with a stackoverflow exit found in executeOne")
 		return
 	}
-	avoid := func(b *ssa.BasicBlock) bool { return stackTest[b] }
-	q := &pathQuery{fn: fn, isTarget: func(b *ssa.BasicBlock) bool { return returnsNil(b) && !avoid(b) }, avoid: avoid}
-	if q.search() {
-		last := fn.Blocks[q.witness[len(q.witness)-1]]
-		c.fail("L4-OPSTACK", fnName, "every successful step passes the operand stack limit", firstPos(last),
-			"executeOne can return successfully at "+c.pos(firstPos(last))+" (block path "+pathString(q.witness)+") without having tested the operand stack depth: a loop of such steps that pushes grows the operand stack without bound")
-	} else {
+	avoid := func(b *ssa.BasicBlock) bool { _, is := stackTest[b]; return is }
+	bad := false
+	for _, h := range core.funcs {
+		if core.enteredOnlyAfter(h, avoid, map[*ssa.Function]bool{}) {
+			continue
+		}
+		q := &pathQuery{fn: h, isTarget: func(b *ssa.BasicBlock) bool { return returnsNil(b) && !avoid(b) }, avoid: avoid}
+		if q.search() {
+			bad = true
+			last := h.Blocks[q.witness[len(q.witness)-1]]
+			c.fail("L4-OPSTACK", fnName, "every successful step passes the operand stack limit", firstPos(last),
+				"executeOne can return successfully at "+c.pos(firstPos(last))+" (block path "+pathString(q.witness)+" in "+c.fname(h)+") without having tested the operand stack depth: a loop of such steps that pushes grows the operand stack without bound")
+		}
+	}
+	if !bad {
 		c.ok("L4-OPSTACK", fnName, "every successful step passes the operand stack limit", fn.Pos(), "path-sensitive search: every successful return passed the len(Stack) test", "")
 	}
+}
+
+// stackTests: the operand-stack limit tests of the core: an If on len(Stack) against a constant one
+// of whose edges reports stackoverflow; with the bound that holds on the other edge.
+func (c *Ctx) stackTests(core *execCore, ia *interpAnchors) map[*ssa.BasicBlock]int64 {
+	out := map[*ssa.BasicBlock]int64{}
+	for _, h := range core.funcs {
+		for _, b := range h.Blocks {
+			ifi, ok := b.Instrs[len(b.Instrs)-1].(*ssa.If)
+			if !ok {
+				continue
+			}
+			m, ok := asCmp(cond{ifi.Cond, true, b})
+			if !ok || !lenOfField(m.x, ia.T, "Stack") && !lenOfField(m.y, ia.T, "Stack") {
+				continue
+			}
+			for i, s := range b.Succs {
+				if c.blockReturnsErr(s) == "stackoverflow" {
+					k, _ := upperBoundConst([]cond{{ifi.Cond, i != 0, b}}, func(v ssa.Value) bool { return lenOfField(v, ia.T, "Stack") })
+					out[b] = k
+				}
+			}
+		}
+	}
+	return out
 }
 
 // containsDispatch: g (or a module function it calls statically, other than executeOne itself)
 // calls an operator through a function value of the operator signature func(*Interpreter) error,
 // or looks a name up with load: calling g is then a dispatch.
-func (c *Ctx) containsDispatch(g *ssa.Function, ia *interpAnchors, seen map[*ssa.Function]bool) bool {
-	if g == nil || seen[g] || g == ia.executeOne || !c.inModule(g) || len(g.Blocks) == 0 {
+func (c *Ctx) containsDispatch(g *ssa.Function, ia *interpAnchors, seen map[*ssa.Function]bool, member map[*ssa.Function]bool) bool {
+	if g == nil || seen[g] || g == ia.executeOne || member[g] || !c.inModule(g) || len(g.Blocks) == 0 {
 		return false
 	}
 	seen[g] = true
@@ -538,7 +611,7 @@ func (c *Ctx) containsDispatch(g *ssa.Function, ia *interpAnchors, seen map[*ssa
 			return
 		}
 		if sc := com.StaticCallee(); sc != nil {
-			if sc == ia.load || c.containsDispatch(sc, ia, seen) {
+			if sc == ia.load || c.containsDispatch(sc, ia, seen, member) {
 				found = true
 			}
 			return
@@ -760,8 +833,15 @@ func (c *Ctx) eexecNesting(ia *interpAnchors) {
 		setsActive := false
 		eachInstr(begin, func(ins ssa.Instruction) {
 			if st, ok := ins.(*ssa.Store); ok && isFieldAddr(st.Addr, sT, c.fld("scanner.eexec")) {
-				if k, isC := constInt(st.Val); isC && k != 0 {
-					setsActive = true
+				// the value stored is a non-zero constant, or a choice between non-zero constants
+				if ks, isC := constChoices(st.Val, 0); isC && len(ks) > 0 {
+					nz := true
+					for _, k := range ks {
+						nz = nz && k != 0
+					}
+					if nz {
+						setsActive = true
+					}
 				}
 			}
 		})
